@@ -120,8 +120,8 @@ func (w *world) checkRequest(q *request) {
 		s := w.events[id]
 		raw := w.now() - s.Enq
 		if age := raw - w.backoff(s.Dest.Name, s.Enq, w.now()); age > dispatchDeadline {
-			w.failf("late-dispatch"+sizeClass(s), "%s was enqueued at %v and first requested at %v: %v later (%v of it behind a Retry-After back-off of the same destination), limit 1.25 x BatchTimeout = %v",
-				id, s.Enq, w.now(), raw, raw-age, dispatchDeadline)
+			w.failf(w.uselessSleep(s.Dest.Name, s.Enq)+"late-dispatch"+sizeClass(s), "%s was enqueued at %v and first requested at %v: %v later (%v of it behind a Retry-After back-off of the same destination%s), limit 1.25 x BatchTimeout = %v",
+				id, s.Enq, w.now(), raw, raw-age, w.uselessSleepText(s.Dest.Name, s.Enq), dispatchDeadline)
 		}
 		if w.stopping {
 			w.note("g_events_first_requested_during_Stop", 1)
@@ -143,6 +143,46 @@ func sizeClass(s *sentEvent) string {
 		return ":event-just-under-1MB"
 	}
 	return ":event-over-1MB"
+}
+
+// finalSleeper finds a batch of destination d whose SECOND (= last permitted) attempt was answered 429/503 at or
+// after `since` and after whose answer the sender went to sleep on the clock: a Retry-After sleep that no further
+// attempt can follow. Such a sleep is not a back-off before a retry, so backoff() does not excuse it.
+func (w *world) finalSleeper(d string, since time.Duration) (*batch, time.Duration) {
+	for _, b := range w.blist {
+		if b.Dest != d || len(b.Attempts) != 2 || len(b.AnsAt) != 2 || b.Attempts[1] == nil || b.AnsAt[1] < since {
+			continue
+		}
+		if k := b.Attempts[1].Kind; k != "429" && k != "503" {
+			continue
+		}
+		var longest time.Duration
+		for _, n := range w.clk.napsAt(t0.Add(b.AnsAt[1])) {
+			if n.Dur > longest {
+				longest = n.Dur
+			}
+		}
+		if longest > 0 {
+			return b, longest
+		}
+	}
+	return nil, 0
+}
+
+// uselessSleep is the signature prefix of the failure class "an event waits behind a sleep that follows the final
+// attempt of an earlier request to the same destination".
+func (w *world) uselessSleep(d string, since time.Duration) string {
+	if b, _ := w.finalSleeper(d, since); b != nil {
+		return "sleep-after-final-attempt:"
+	}
+	return ""
+}
+
+func (w *world) uselessSleepText(d string, since time.Duration) string {
+	if b, dur := w.finalSleeper(d, since); b != nil {
+		return fmt.Sprintf("; batch %v of the same destination had its second and last attempt answered %v at %v and the sender then slept %v although no further attempt follows", b.IDs, *b.Attempts[1], b.AnsAt[1], dur)
+	}
+	return ""
 }
 
 // backoff returns how much of [from, to] some batch of destination d spent between a 429/503 answer to its first
@@ -266,8 +306,8 @@ func (w *world) checkQuiescent() {
 				w.failf("pending-not-sent-at-stop"+sizeClass(s), "Stop() returned but %s (-> %s, enqueued at %v) was never put in any request", id, s.Dest.Name, s.Enq)
 			}
 			if bo := w.backoff(s.Dest.Name, s.Enq, now); now-s.Enq-bo >= dispatchDeadline {
-				w.failf("not-dispatched-by-deadline"+sizeClass(s), "%s (-> %s) was enqueued at %v; at %v (%v later, %v of it behind a Retry-After back-off of the same destination; limit 1.25 x BatchTimeout = %v) it has still not been put in any request",
-					id, s.Dest.Name, s.Enq, now, now-s.Enq, bo, dispatchDeadline)
+				w.failf(w.uselessSleep(s.Dest.Name, s.Enq)+"not-dispatched-by-deadline"+sizeClass(s), "%s (-> %s) was enqueued at %v; at %v (%v later, %v of it behind a Retry-After back-off of the same destination%s; limit 1.25 x BatchTimeout = %v) it has still not been put in any request",
+					id, s.Dest.Name, s.Enq, now, now-s.Enq, bo, w.uselessSleepText(s.Dest.Name, s.Enq), dispatchDeadline)
 			}
 		} else if b.Attempts[len(b.Attempts)-1] == nil {
 			all = false
